@@ -89,3 +89,97 @@ register(
     "parameter kinds are enumerated. The quick-fix text edit is a string-value property and is not decided.",
     [r6.r6b_body, r6.r6c_binding_forms],
 )
+
+from . import r5
+
+register(
+    "C01",
+    "Structural clause of the shadowing order: (R5a) every stage of the resolver cascade (found by role: the generic "
+    "function with an exclusion-filter parameter and >= 3 selection sites) selects with a visibility test on the "
+    "element; a stage that selects by name alone can return a definition that is not visible from the using file. "
+    "That the cascade order and the conftest walk coincide with pytest for every layout is not decided.",
+    [r5.r5a_c01],
+)
+
+register(
+    "C02",
+    "Structural clauses of self-named parameter handling: (R5b) the exclusion filter is applied at every selection "
+    "site of the cascade, (R5c) every caller that resolves usages pairs the non-excluding and the excluding resolver "
+    "under a test of the current definition's name against the usage name (memo lookups included). Cursor-column "
+    "arithmetic and chain semantics are not decided.",
+    [r5.r5b_filter_everywhere, r5.r5c_selfref_pairing],
+)
+
+from . import r4
+
+
+def _r5a_c05(ctx):
+    return r5.r5a_visibility(ctx, fns=["compute_available_fixtures", "resolve_fixture_for_file"], rule="R5a")
+
+
+def _r5a_c16(ctx):
+    return r5.r5a_visibility(ctx, fns=["compute_fixture_cycles", "detect_scope_mismatches_in_file"], rule="R5a")
+
+
+def _r4a_c16(ctx):
+    return r4.r4a_unordered(ctx, only_fns=["compute_fixture_cycles", "detect_scope_mismatches_in_file", "detect_fixture_cycles",
+                                           "detect_fixture_cycles_in_file"], rule="R4a")
+
+
+register(
+    "C05",
+    "Structural clauses of cross-feature agreement: (R5d) the sibling resolvers (found by role: functions whose "
+    "selection sites cover the same-file / conftest / plugin / third-party stages) use the same selector class per "
+    "stage as the navigation cascade, (R5a) none of them selects by name alone. Agreement on every input and the "
+    "hover/inlay text are not decided.",
+    [r5.r5d_siblings, _r5a_c05],
+)
+
+register(
+    "C08",
+    "Structural clauses of order independence: (R4a) a vector filled in DashMap / hash-map iteration order is sorted "
+    "before it is returned, (R4b) first-match exits from such iterations are reviewed for uniqueness of the match, "
+    "(R4c) order-sensitive selections over the per-name definition vector (registration order = scan schedule) are "
+    "pinned to one file. Ties under non-total sort keys and other channels of nondeterminism are not decided.",
+    [r4.r4a_unordered, r4.r4b_unordered_pick, r5.r4c_order_sensitive],
+)
+
+from . import r8
+
+register(
+    "C16",
+    "Structural clauses of dependency diagnostics: (R5a) the dependency's definition is selected with a visibility "
+    "test (i.e. resolved from the depending file), not first-registered; (R4a) cycle and mismatch lists are not "
+    "returned in hash order; (R8b) the scope enum follows pytest's order, parse/as_str agree with it and a "
+    "ScopeMismatch is built only under `fixture.scope > dependency.scope`. Soundness/completeness of the cycle "
+    "search is not decided.",
+    [_r5a_c16, _r4a_c16, r8.r8b_scope_order],
+)
+
+register(
+    "C19",
+    "Structural clauses of published diagnostics: (R8a) codes constructed = codes gated = codes accepted by the "
+    "configuration loader, each Diagnostic and each collector sits on the not-disabled edge of the gate with its own "
+    "code; (R11a) in did_open/did_change the analysis is always followed by publishing for the same document. "
+    "Equality of the last published set with the latest content for every history is not decided.",
+    [r8.r8a_diagnostic_codes, r8.r11a_analyze_then_publish],
+)
+
+register(
+    "C20",
+    "Structural clauses of the CLI: (R11b) exit status follows emptiness of the unused list and both formats iterate "
+    "it; (R11d) the json branch prints only serializer output / JSON literals; (R4a) CLI result vectors filled from "
+    "unordered iteration are sorted; (R5c) the CLI's own usage counter pairs excluding / non-excluding resolution "
+    "like the server. Equality of counts with the server and byte-identical output are not decided.",
+    [r8.r11b_exit_status, r8.r11d_json_output,
+     lambda ctx: r4.r4a_unordered(ctx, only_fns=["get_unused_fixtures", "print_fixtures_tree", "compute_definition_usage_counts"], rule="R4a"),
+     r5.r5c_selfref_pairing],
+)
+
+register(
+    "C18",
+    "Structural clauses of completion: (R11c) every push into the per-file view is guarded by the seen-set (one entry "
+    "per name); (R8c) the textual fallback recognises every decorator module the AST recogniser accepts. Context "
+    "classification per line, the offered set algebra and sort priorities are not decided.",
+    [r8.r11c_one_entry_per_name, r8.r8c_text_fallback],
+)
